@@ -206,11 +206,11 @@ def _ccase(draw, k):
 
 def clauses():
     return [
-        Clause("circle", _ccase(1), lambda c, r: _curved(c, r, "Circle"), quick=300, thorough=8000, rule="Circle", floors={"theta_outside_0_2pi": 0.4}),
-        Clause("ellipse", _ccase(2), lambda c, r: _curved(c, r, "Ellipse"), quick=400, thorough=10000, rule="Ellipse", floors={"theta_outside_0_2pi": 0.4}),
-        Clause("convex_polygon", _polycase(False), lambda c, r: _polygon(c, r, False), quick=700, thorough=20000, rule="ConvexPolygon",
+        Clause("circle", _ccase(1), lambda c, r: _curved(c, r, "Circle"), quick=1500, thorough=8000, rule="Circle", floors={"theta_outside_0_2pi": 0.4}),
+        Clause("ellipse", _ccase(2), lambda c, r: _curved(c, r, "Ellipse"), quick=2000, thorough=10000, rule="Ellipse", floors={"theta_outside_0_2pi": 0.4}),
+        Clause("convex_polygon", _polycase(False), lambda c, r: _polygon(c, r, False), quick=3500, thorough=20000, rule="ConvexPolygon",
                floors={"irregular": 0.4, "theta_outside_0_2pi": 0.4, "special_angles": 0.1, "axis_aligned_edges": 0.1}),
-        Clause("spheropolygon", _polycase(True), lambda c, r: _polygon(c, r, True), quick=500, thorough=12000, rule="ConvexSpheropolygon",
+        Clause("spheropolygon", _polycase(True), lambda c, r: _polygon(c, r, True), quick=2500, thorough=12000, rule="ConvexSpheropolygon",
                floors={"irregular": 0.4, "theta_outside_0_2pi": 0.4, "special_angles": 0.1, "axis_aligned_edges": 0.1}),
     ]
 
